@@ -1805,6 +1805,8 @@ func init() {
 		}
 		// derived solids (own stream: the records above do not depend on them)
 		shapes = append(shapes, genDerivedSolids(rand.New(rand.NewSource(int64(a.int("seed", 1))*7919+33)), n)...)
+		// wrappers around boxes: Translate / Scale / Rotate / VecScaleSolid, toolbox3d clamps, FuncSolid, RadialCurve (own stream)
+		shapes = append(shapes, genWrapperSolids(rand.New(rand.NewSource(int64(a.int("seed", 1))*7919+34)), n)...)
 		for i, s := range shapes {
 			rec := primProbeSolid(i+1, s)
 			stats["records"]++
